@@ -271,7 +271,7 @@ def expect_struct_fields(c, ns, d, j, where, ignore=('.tag',)):
                 b = idx.base(f['type'])
                 if b[0] == 'ref':
                     kd = idx.get(b[1], b[2])
-                    if kd['k'] == 'struct' and not struct_has_required(idx, b[1], kd):
+                    if kd['k'] == 'struct' and not struct_has_required(idx, b[1], kd) and not kd.get('subtypes'):
                         verdict = 'U'      # pinned: null decodes to the default struct
                         continue
                 if b == M.VOID:
